@@ -426,17 +426,20 @@ def check_loop_generators_uniform(ctx):
     no field kind (a Move, an Int of rare size...) is special-cased with inlined arithmetic"""
     repo = ctx.repo
     cg = repo.cls('CodeGenerator')
-    for mname in ('generate_code_for_loop_pack', 'generate_code_for_loop_unpack'):
-        fi = cg.methods.get(mname)
-        if fi is None:
-            ctx.undecided('R2-move-runs-as-a-field', (cg.file, 'CodeGenerator.' + mname), mname, 'generator not found')
-            continue
+    gens = D.loop_generators(repo)
+    if not gens:
+        ctx.undecided('R2-move-runs-as-a-field', (cg.file, 'CodeGenerator'), 'per-field loop block generators', 'generator not found')
+    own_names = {f_.node.name for f_, _ in gens}
+    for fi, kinds_ in gens:
+        mname = fi.node.name
         ts = [t for t in repo.templates() if t.func.id == fi.id]
+        if len(kinds_) == 2 and len(ts) == 2:
+            ts = ts[:1]         # one function serving both kinds: one block template per kind
         # the generator and the helpers of the code generator it calls for its holes
-        members = [f for f in repo.reach(fi, depth=2) if f is fi or (f.cls is cg and f.qual.split('.')[-1].startswith('generate_code_for_') and f.qual.split('.')[-1] not in ('generate_code_for_loop_pack', 'generate_code_for_loop_unpack'))]
+        members = [f for f in repo.reach(fi, depth=2) if f is fi or (f.cls is cg and f.qual.split('.')[-1].startswith('generate_code_for_') and f.qual.split('.')[-1] not in own_names)]
         branches = [n for f_ in members for n in ast.walk(f_.node) if isinstance(n, (ast.If, ast.IfExp)) and ('isinstance' in unparse(n.test) or 'type(' in unparse(n.test) or '.is_alignment' in unparse(n.test) or 'Move' in unparse(n.test))]
         if len(ts) == 1 and not branches:
-            ctx.holds('R2-move-runs-as-a-field', fi, '%s: one block template for every member of the run' % mname, 'moves / alignments are executed by Move.%s, with the reference point' % ('pack' if 'pack' in mname.split('_')[-1] and 'unpack' not in mname else 'unpack'), fi.node.lineno, clause='e')
+            ctx.holds('R2-move-runs-as-a-field', fi, '%s: one block template for every member of the run' % mname, 'moves / alignments are executed by Move.%s, with the reference point' % '/'.join(kinds_), fi.node.lineno, clause='e')
         elif not branches and len(ts) == 0:
             # the block template lives elsewhere (a shared helper): nothing here special-cases a kind
             ctx.undecided('R2-move-runs-as-a-field', fi, '%s: no block template in this function' % mname, 'the per-field block is produced by another function; the rule cannot see that it is the same for every member of the run', fi.node.lineno, clause='e')
